@@ -5,7 +5,8 @@ import Knut.GoSem.Csv
 
 `csv.go`: per row the cells are rendered (`CSVRenderer.renderCell`: separators and empty cells are `""`, text cells their content,
 numbers `Decimal.String`), a row all of whose fields are empty is skipped, the others are handed to an `encoding/csv.Writer`
-(prelude `GoSem/Csv.lean`: the line of a record is the model's `csvLine`; `Flush` at the end passes everything to the sink).
+(prelude `GoSem/Csv.lean`: the line of a record is the model's `csvLine`; `Flush` at the end passes everything to the sink;
+the `return writer.Error()` after it — the sticky error of the buffered writer — is `none` over the in-memory sink).
 The `if err != nil { return err }` branches are translated and dead: a cell of the closed sum always renders, the csv writer over an
 in-memory sink does not fail.  The model has no percent cells, so the float formatter `ff` is arbitrary.
 -/
@@ -102,7 +103,8 @@ theorem CSV_Render_agrees_rel (cr : table.CSVRenderer) (T : table.Table) (t : Ta
     (ff : Fmt.FloatFmt) :
     table.CSVRenderer.Render cr T w ff = Outcome.ok (w ++ String.ofList (Table.renderCSV t), none) := by
   unfold table.CSVRenderer.Render
-  simp only [csv_range1_agrees cr ff T t.rows T.rows _ hT.2, Outcome.bind, Csv.NewWriter, Csv.dropped_Flush]
+  simp only [csv_range1_agrees cr ff T t.rows T.rows _ hT.2, Outcome.bind, Csv.NewWriter, Csv.dropped_Flush,
+    Csv.Writer.Error]
   rfl
 
 theorem CSV_Render_agrees (cr : table.CSVRenderer) (t : Table.Table) (w : String) (ff : Fmt.FloatFmt) :
